@@ -337,6 +337,30 @@ macro_rules! api_impl {
                         pool.push(c);
                         i += 2;
                     }
+                    "fresh" => {
+                        // a new lexer over the same source in the given mode (the pool then holds lexers of both modes)
+                        let p = ops.get(i + 1).map(|s| *s == "1").unwrap_or(false);
+                        let l = if p { Lexer::<$ta>::partial_with_extras(src, 7) } else { Lexer::<$ta>::with_extras(src, 7) };
+                        let c = $any::A(l.spanned());
+                        out.push_str(&format!("fresh={} ", $state(&c, src)));
+                        pool.push(c);
+                        i += 2;
+                    }
+                    "clonefrom" => {
+                        // pool[idx].clone_from(&pool[j]) on the lexers themselves (in place), when they have the same token type
+                        let j: usize = ops.get(i + 2).and_then(|s| s.parse().ok()).unwrap_or(0) % pool.len();
+                        let tmp = match &pool[j] {
+                            $any::A(y) => $any::A(y.clone()),
+                            $any::B(y) => $any::B(y.clone()),
+                        };
+                        match (&mut pool[idx], &tmp) {
+                            ($any::A(x), $any::A(y)) => (**x).clone_from(&**y),
+                            ($any::B(x), $any::B(y)) => (**x).clone_from(&**y),
+                            _ => {}
+                        }
+                        out.push_str(&format!("clonefrom={} ", $state(&pool[idx], src)));
+                        i += 3;
+                    }
                     "morph" => {
                         let m = match &pool[idx] {
                             $any::A(x) => $any::B((**x).clone().morph::<$tb>().spanned()),
